@@ -200,6 +200,7 @@ func TestC03(t *testing.T) {
 								expText += fmt.Sprintf(" -> %+v", exp.Hops)
 							}
 							V.Journal(t.Name()+"/"+tname, c03Case{iname, cell.String(), g, jsonBytes(wire), expText})
+							svc.in.expect(wire)
 							if err := send(wire); err != nil {
 								V.HarnessError(rt, "send: %v", err)
 							}
